@@ -66,12 +66,13 @@ def model_stage(ctx, stats, pre=None):
         items = [("MC_ZNode_single_safe.cfg", 4, 900), ("MC_ZNode_leader.cfg", 4, 1200),
                  ("MC_ZNode_single_acked.cfg", 1, 300), ("MC_ZNode_follower.cfg", 6, 1800), ("MC_ZNode_single_deep.cfg", 4, 900),
                  # install path of a follower (3 operations): the design, and the two orders of the code that refute it
-                 ("MC_ZNode_install.cfg", 4, 1200), ("MC_ZNode_install_torn.cfg", 1, 600), ("MC_ZNode_install_code.cfg", 2, 900)]
+                 ("MC_ZNode_install.cfg", 4, 1200), ("MC_ZNode_install_code.cfg", 4, 1200),
+                 ("MC_ZNode_install_torn.cfg", 1, 600), ("MC_ZNode_install_slowpurge.cfg", 2, 900)]
     pre = pre or {}
     res = dict(V.parallel(one, [it for it in items if it[0] not in pre], n=len(items)))
     res.update(pre)
     for cfg, _, _ in items:
-        if "acked" in cfg or "deep" in cfg or "install_" in cfg:
+        if "acked" in cfg or "deep" in cfg or "install_torn" in cfg or "install_slowpurge" in cfg:
             continue
         V.require_model_ok(ctx, N.soften(res[cfg]), cfg)
         runs.append(dict(cfg=cfg, **res[cfg].summary()))
@@ -95,7 +96,8 @@ def model_stage(ctx, stats, pre=None):
             raise V.Inconclusive("MC_ZNode_single_deep: expected PurgeKeepsRestorable to be refuted, got %s" % deep.violated)
         stats["orphan_counterexample"] = N.action_labels(deep.out)[-8:]
     for cfg, what in (("MC_ZNode_install_torn.cfg", "restore copies files in place (known finding c06-torn-restore-blocks-engine-open)"),
-                      ("MC_ZNode_install_code.cfg", "latest-snapshot index moves before the hard state is saved (suspicion, not replayed)")):
+                      ("MC_ZNode_install_slowpurge.cfg", "the code's order of UpdateSnapshotState WITHOUT the assumption that a local "
+                       "backup's purge runs before a later install finishes its fetch (checkpointDirLock hand-off; settled on real code: purge first)")):
         if cfg in res:
             r = N.soften(res[cfg])
             runs.append(dict(cfg=cfg, expected="refuted: " + what, **r.summary()))
@@ -165,6 +167,10 @@ def classify(ctx, events, v, n, tag, trace_path):
         sig["class"] = "replay-drops-wal-entries"
         return sig, ("node %s restarted with raft last index %s although its WAL returned entries up to %s: entries above "
                      "the persisted commit index were dropped at replay" % (e.get("n"), e.get("raft_last"), e.get("wal_last")))
+    if e.get("ev") == "appended":
+        sig["class"] = "ready-entries-not-in-raft-log"
+        return sig, ("node %s: after the append of a Ready (snapshot %s) raft's log ends at %s although the Ready's last entry is %s"
+                     % (e.get("n"), e.get("snap"), e.get("raft_last"), e.get("ents_last")))
     if e.get("ev") == "published":
         sig["class"] = "publish-before-save"
         return sig, ("node %s handed entry %s to the apply loop while the largest index saved to its WAL was %s"
@@ -205,7 +211,7 @@ def run(ctx):
     rnd = random.Random(ctx.seed)
     stats = dict(scenarios=0, accepted=0, rejected=0, triggered=0, events=0, acked=0, unanswered=0,
                  points_hit={}, died_modes={}, spec_mutants_refuted=[], selftest=[], process_starts=0,
-                 snapshots_crossed=0, not_triggered=[])
+                 snapshots_crossed=0, not_triggered=[], whitebox={})
     samples = []
     vnode, zr = N.build(ctx)
     weak = finding_open("c06-single-replica-ack-before-persist")
@@ -259,6 +265,12 @@ def run(ctx):
         gen_install = [p for p in INSTALL if p != "snap.install.released"]
         for p in (gen_install if not ctx.quick() else [gen_install[ctx.seed % len(gen_install)]]):
             add("i3-%s-%s" % (eng, p), 3, eng, "install", ["-point", p], iso=(eng == "pebble"))
+        # the same gates with KeepBackup 1 (the checkpoint purge keeps one checkpoint only); at persist.snap - between
+        # "snapshot file + WAL marker written, store told the new latest index" and wal.Save - the dying goroutine waits
+        # 300 ms so that anything concurrent (a local backup's purge) lands inside the window
+        for p in (gen_install if not ctx.quick() else (["persist.snap"] if eng == "mem" else [])):
+            add("i3-%s-%s-kb1" % (eng, p), 3, eng, "install",
+                ["-point", p, "-keepbackup", "1"] + (["-delay", "300"] if p == "persist.snap" else []), iso=False)
         if eng == "mem":
             add("isolate-torn-restore", 3, "mem", "install", ["-point", "snap.install.released"], iso=True)
     if ctx.quick():
@@ -276,6 +288,10 @@ def run(ctx):
         a, b = rnd.sample(RAFT + APPLY + ["kill"], 2)
         add("chain3-%s-%s" % (a, b), 3, "mem", "chain", ["-chain", "%s,%s" % (a, b), "-ops", "40", "-victim", "any"])
         add("rand1-mem", 1, "mem", "random", ["-cycles", "3"])
+        # bursts of proposals per Ready (unrecorded noise clients) with a tiny max_committed_size_per_ready: the
+        # committed entries of a Ready lag behind and straddle its new entries (white-box rule TPublished)
+        add("rand1-mem-straddle-a", 1, "mem", "random", ["-cycles", "2", "-noise", "12", "-maxcommitted", "400"])
+        add("rand1-mem-straddle-b", 1, "mem", "random", ["-cycles", "2", "-noise", "24", "-maxcommitted", "1500"])
         # optimized_fsync: the WAL is flushed to the OS but not fsynced on most saves; a process kill must lose nothing
         add("rand1-mem-optfsync", 1, "mem", "random", ["-cycles", "3", "-optfsync"])
         add("p1-mem-optfsync-" + pick[0], 1, "mem", "point", ["-point", pick[0], "-k", "3", "-optfsync"])
@@ -290,6 +306,9 @@ def run(ctx):
             add("rand3-%s-%d" % (eng, i), 3, eng, "random", ["-cycles", "4"])
         for i, p in enumerate(RAFT + APPLY):
             add("p1-mem-optfsync-%s" % p, 1, "mem", "point", ["-point", p, "-k", str(1 + i % 4), "-optfsync"])
+        for i in range(6):
+            add("rand%d-straddle-%d" % ([1, 1, 3][i % 3], i), [1, 1, 3][i % 3], engines[i % 2], "random",
+                ["-cycles", "2", "-noise", str([12, 24, 32][i % 3]), "-maxcommitted", str([400, 1500, 800][i % 3])])
         for i in range(4):
             add("rand1-optfsync-%d" % i, 1, engines[i % 2], "random", ["-cycles", "4", "-optfsync"])
         for i in range(4):
@@ -338,6 +357,9 @@ def run(ctx):
         events = V.read_ndjson(tr)
         stats["scenarios"] += 1
         stats["events"] += len(events)
+        for e in events:
+            if e.get("ev") in ("sent", "replayed", "published", "appended"):
+                stats["whitebox"][e["ev"]] = stats["whitebox"].get(e["ev"], 0) + 1
         stats["acked"] += summ["ok"]
         stats["unanswered"] += summ["fail"]
         stats["process_starts"] += summ["process_starts"]
@@ -462,6 +484,9 @@ def run(ctx):
         died_at=stats["points_hit"], died_modes=stats["died_modes"],
         events_validated=stats["events"], acked_ops=stats["acked"], unanswered_ops=stats["unanswered"],
         process_starts=stats["process_starts"], scenarios_with_snapshot=stats["snapshots_crossed"],
+        whitebox_events=dict(stats["whitebox"], note="reports of the processReady / restart hooks that reached a trace: sent = Ready "
+                             "whose messages left before its persist; replayed = restart summaries; published = Ready published "
+                             "above the saved index; appended = Readys carrying a snapshot AND entries (rule TAppended)"),
         weak_ack_rule_on_single_replica=weak,
         checker_cmd="tlc -config ZNodeTrace.cfg ZNodeTrace (ZR_TRACE=<trace>, workers 1, StateDeque)",
     )
